@@ -1,10 +1,20 @@
+mod alloc_count;
+mod codec;
+mod hist;
+mod provider;
+mod storage;
 mod treemath;
+
+#[global_allocator]
+static GLOBAL: alloc_count::Counting = alloc_count::Counting;
 
 fn main() {
     let args: Vec<String> = std::env::args().collect();
     let sub = args.get(1).map(|s| s.as_str()).unwrap_or("");
     let code = match sub {
         "treemath" => treemath::run(),
+        "codec" => codec::run(),
+        "hist" => hist::run(),
         _ => {
             eprintln!("usage: mlsh <treemath|...>");
             2
